@@ -1033,6 +1033,7 @@ class PeriodicDataFrame(DataFrame):
         self.interval = pd.Timedelta(interval).total_seconds()
         self.source = source
         self.continue_ = [False]  # like the oppose of self.stopped
+        self._polling = [False]  # whether the coroutine _cb is under way
         self.kwargs = kwargs
 
         stream = self.source.map(lambda x: datafn(**x, **kwargs))
@@ -1045,8 +1046,12 @@ class PeriodicDataFrame(DataFrame):
     def start(self):
         if not self.continue_[0]:
             self.continue_[0] = True
-            self.loop.add_callback(self._cb, self.interval, self.source,
-                                   self.continue_)
+            if not self._polling[0]:
+                # otherwise the previous _cb has not noticed the stop() yet
+                # and simply carries on: never two polling loops at once
+                self._polling[0] = True
+                self.loop.add_callback(self._cb, self.interval, self.source,
+                                       self.continue_, self._polling)
 
     def __del__(self):
         self.stop()
@@ -1055,13 +1060,17 @@ class PeriodicDataFrame(DataFrame):
         self.continue_[0] = False
 
     @staticmethod
-    async def _cb(interval, source, continue_):
-        last = pd.Timestamp.now()
-        while continue_[0]:
-            await asyncio.sleep(interval)
-            now = pd.Timestamp.now()
-            await asyncio.gather(*source._emit(dict(last=last, now=now)))
-            last = now
+    async def _cb(interval, source, continue_, polling=None):
+        try:
+            last = pd.Timestamp.now()
+            while continue_[0]:
+                await asyncio.sleep(interval)
+                now = pd.Timestamp.now()
+                await asyncio.gather(*source._emit(dict(last=last, now=now)))
+                last = now
+        finally:
+            if polling is not None:
+                polling[0] = False
 
 
 @DataFrame.register_api(staticmethod, "random")
